@@ -254,7 +254,12 @@ def check_kernel_schedule(run, tree):
                 _, kev, _ = run_kernel(tree, 3)
                 terms = [t for rec in kev.stores if rec[5] is st for g in rec[3] for t in g.terms]
             except Unsupported as e:
-                run.unresolved("%s::shared-store::%s" % (KERNEL, norm(tgt)), fi.where(st), "cannot evaluate the kernel symbolically: %s" % e)
+                if not [g for g in guards if g[1]]:
+                    # no enclosing test at all: unguarded whatever the rest of the kernel looks like
+                    run.violated("%s::shared-store::%s" % (KERNEL, norm(tgt)), fi.where(st), "plain store `%s` inside prange under no condition (the kernel is otherwise not "
+                                 "evaluable: %s)" % (norm(st), e), "a store into an array shared by all threads: last writer wins / threads overwrite each other's scratch values")
+                else:
+                    run.unresolved("%s::shared-store::%s" % (KERNEL, norm(tgt)), fi.where(st), "cannot evaluate the kernel symbolically: %s" % e)
                 continue
             gtxt = [repr(t) for t in terms]
             guarded = any(t.op == "<=" for t in terms)
